@@ -28,8 +28,8 @@ Section freshness.
   Context (Hrank : forall t k deps d, g !! t = Some (k, deps) -> d ∈ deps -> rank d < rank t).
 
   Record fresh_inv (s : sys) : Prop := {
-    fi_unav : forall R aR, actors s !! R = Some aR -> a_kind aR = ABuild -> clean aR -> unavB aR = ∅;
-    fi_fresh : forall R aR x ax, actors s !! R = Some aR -> a_kind aR = ABuild -> actors s !! x = Some ax -> a_kind ax = ABuild ->
+    fi_unav : forall R aR, actors s !! R = Some aR -> a_kind aR <> AAggregate -> clean aR -> unavB aR = ∅;
+    fi_fresh : forall R aR x ax, actors s !! R = Some aR -> a_kind aR <> AAggregate -> actors s !! x = Some ax -> a_kind ax = ABuild ->
                  x ∈ a_deps aR -> clean aR -> MInvalidated KB x ∉ inb (inbox s) R -> ran_after (hist s) R x
   }.
 
@@ -97,7 +97,7 @@ Section freshness.
           exfalso.
           (* x completes now: it was in progress, hence could not acknowledge; R is clean, so it has recorded x as available:
              the latest word from x in R's inbox must be the out-of-date notice *)
-          destruct (step_succ_was_ongoing _ _ _ _ _ _ _ Hst Hkx t Hs) as [Hon _].
+          destruct (step_succ_was_ongoing _ _ _ _ _ _ _ Hst t Hkx Hs) as [Hon _].
           destruct (wi_flags _ _ Hwi t a Ha) as [_ Hrun]. pose proof (Hrun Hkx Hon) as Hex.
           pose proof (fi_unav _ Hfi R aR HR0 HkR Hc) as Hu.
           assert (Hown : own a KB) by (unfold own; by rewrite Hkx).
@@ -128,12 +128,12 @@ Section freshness.
   Qed.
 
   (* Repaired handlers, any mode, every closed acyclic graph, every sequence of changes, every interleaving and merge order.
-     In every reachable state inside the root loop: if the build R is acknowledged (or its run is in progress and has not been
-     re-armed) and no out-of-date notice from its build dependency x is waiting in R's inbox, then the last success of x
+     In every reachable state inside the root loop: if the build or service R is acknowledged (or, a build, its run is in progress and has
+     not been re-armed) and no out-of-date notice from its build dependency x is waiting in R's inbox, then the last success of x
      precedes the last start of R: the run R is acknowledged for saw the latest output of x. *)
   Theorem acknowledged_run_is_fresh s R aR x ax :
     reachable true w g roots s -> ph s = PRun ->
-    actors s !! R = Some aR -> a_kind aR = ABuild -> actors s !! x = Some ax -> a_kind ax = ABuild -> x ∈ a_deps aR ->
+    actors s !! R = Some aR -> a_kind aR <> AAggregate -> actors s !! x = Some ax -> a_kind ax = ABuild -> x ∈ a_deps aR ->
     clean aR -> MInvalidated KB x ∉ inb (inbox s) R -> ran_after (hist s) R x.
   Proof. intros Hr Hp. exact (fi_fresh _ (fresh_inv_reachable s Hr Hp) R aR x ax). Qed.
 
@@ -141,14 +141,16 @@ Section freshness.
      dependencies *)
   Theorem settled_run_saw_latest_dependency s R aR x ax :
     reachable true w g roots s -> ph s = PRun -> quiescent true w s = true -> none_failed s ->
-    actors s !! R = Some aR -> a_kind aR = ABuild -> reqB aR <> ∅ ->
+    actors s !! R = Some aR -> a_kind aR <> AAggregate -> (forall k, own aR k -> reqs aR k <> ∅) ->
     actors s !! x = Some ax -> a_kind ax = ABuild -> x ∈ a_deps aR ->
     ran_after (hist s) R x.
   Proof.
     intros Hr Hp Hq Hnf HR HkR Hreq Hx Hkx Hdep.
     eapply (acknowledged_run_is_fresh s R aR x ax); try done.
-    - left. pose proof (quiescent_up_to_date g roots w rank Hclosed Hrank s Hr Hp Hq Hnf R aR KB HR) as Hav.
-      unfold availb, own in Hav. rewrite HkR in Hav. by apply Hav.
+    - left. pose proof (quiescent_up_to_date g roots w rank Hclosed Hrank s Hr Hp Hq Hnf R aR) as Hav.
+      unfold availb, own in *. destruct (a_kind aR) eqn:Hk; [| |done].
+      + apply (Hav KB HR eq_refl). by apply Hreq.
+      + apply (Hav KS HR eq_refl). by apply Hreq.
     - rewrite (wq3_inbox_empty g roots w rank Hclosed Hrank s Hr Hp Hq R aR HR). by intros ?%elem_of_nil.
   Qed.
 End freshness.
